@@ -159,6 +159,14 @@ func c14Case(env *Env, tape *sim.Tape) *CaseOut {
 		mt += []string{"; charset=utf-8", ";inline=1", "; inline=1; charset=utf-8"}[cmdRaw/16%3]
 		out.stat("probe_media_type_parameters_on_the_call", 1)
 	}
+	if cmdRaw%64 == 9 && !isCmd && embed == 0 && doc.MT != MTEarly && (entry == EPlain || entry == EWriter || entry == EReader) {
+		// a media type nobody registered: the call fails with the not-exist error and must not
+		// touch the destination at all - whatever the destination would have answered (the
+		// HTTP entry points pass such responses through by design and Match answers nil: not
+		// part of this variant)
+		mt = []string{"image/png", "application/octet-stream; name=x", "text/x-nobody"}[cmdRaw/64%3]
+		out.stat("probe_unregistered_media_type", 1)
+	}
 	refKey := fmt.Sprintf("%d/%d/%d/%s", di, embed, trunc, mt)
 	if isCmd {
 		refKey += fmt.Sprintf("/cmd%d", len(data))
